@@ -159,6 +159,22 @@ MovesGS(h, kn) ==
         \o (IF t.part # <<>> THEN <<MUngroup(i)>> ELSE <<>>)
 
 ---------------------------------------------------------------------------
+(* one table object (slice_head, alias, element-wise mutate) that several pipelines extend with a verb needing a subquery: *)
+(* the subquery rewrite must not touch the shared prefix (C10), and each extension must still be accepted (C08)           *)
+MovesSubq(h, kn) ==
+    LET i  == Len(h)
+        t  == h[i]
+        has(n) == n \in VisNames(t)
+        c(n) == Col(ByName(t)[n])
+    IN  IF ~(has("a") /\ has("b")) THEN <<>> ELSE
+        <<MArrange(i, <<Ord(c("b"), FALSE, "first"), Ord(c("a"), TRUE, "last")>>), MSlice(i, 3, 0),
+          MAlias(i, t.name, TRUE), MAlias(i, "s", FALSE),
+          MFilter(i, <<Fn2("gt", CN("b"), LitI(0))>>), MArrange(i, <<Ord(CN("a"), FALSE, "first")>>)>>
+        \o (IF ~has("x") THEN <<MMutate(i, <<KV("x", Fn2("add", CN("b"), LitI(1)))>>)>> ELSE <<>>)
+        \o (IF has("g") /\ t.part = <<>> THEN <<MGroupBy(i, <<CN("g")>>, FALSE)>> ELSE <<>>)
+        \o (IF t.part # <<>> THEN <<MSummarize(i, <<KV("s", Agg("sum", CN("b")))>>)>> ELSE <<>>)
+
+---------------------------------------------------------------------------
 (* tall tables: a short alphabet that is cheap to evaluate on > 100 rows *)
 MovesTall(h, kn) ==
     LET i == Len(h)
